@@ -332,3 +332,105 @@ def every_pass_executes(stmts, pred, passed=False):
                 ok = ok and o2
             passed = passed     # a handler may have skipped the body
     return ok, passed
+
+
+class SweepStep:
+    """One iteration of a recurrence loop with the roles of its names read off their values at loop entry, not their
+    spelling: `roles` maps role -> local name (None when no carried name enters with that role's value), `after` maps
+    every name the body assigns to its value after one iteration started from symbols in_<role>, `fresh` are the names
+    assigned in the body that are not carried, `var` the loop variable."""
+
+    def __init__(self, roles, carried, fresh, after, var, entry):
+        self.roles, self.carried, self.fresh, self.after, self.var, self.entry = roles, carried, fresh, after, var, entry
+
+    def role_of(self, name):
+        for r, nm in self.roles.items():
+            if nm == name:
+                return r
+        return None
+
+    def out(self, role):
+        nm = self.roles.get(role)
+        return self.after.get(nm) if nm is not None else None
+
+    def fresh_equal(self, dom, want):
+        """fresh (or carried) names whose value after the iteration equals `want`."""
+        hits = []
+        for nm, v in self.after.items():
+            r = dom.rat(v) if v is not None else None
+            if r is not None and r == want:
+                hits.append(nm)
+        return hits
+
+
+def sweep_step(it, dom, fi, sn, wants, var_atom='nn', given=None, prefix='in_'):
+    sws = sweep_steps(it, dom, fi, sn, wants, var_atom, given, prefix)
+    if len(sws) != 1:
+        from ..core.db import AnalysisError
+        raise AnalysisError('%s: one iteration of the loop at line %d has %d paths' % (fi.qual, sn.node.lineno, len(sws)))
+    return sws[0]
+
+
+def sweep_steps(it, dom, fi, sn, wants, var_atom='nn', given=None, prefix='in_'):
+    """Analyse one iteration of the loop snapshot `sn` of function `fi` (see SweepStep).  `wants` maps role -> the Rat a
+    carried name must hold at loop entry to play that role.  Names that are not carried keep the value they had at loop
+    entry (or `given[name]`), the loop variable becomes the symbol `var_atom`."""
+    from ..core.db import AnalysisError
+    from ..core.interp import Const
+    loop = sn.node
+    carried = sorted(loop_carried(loop))
+    entry = {nm: (dom.rat(sn.env[nm]) if nm in sn.env else None) for nm in carried}
+    roles = {}
+    taken = set()
+    for role, w in wants.items():
+        hits = [nm for nm in carried if nm not in taken and nm not in (given or {}) and entry[nm] is not None and entry[nm] == w]
+        roles[role] = hits[0] if len(hits) == 1 else None
+        if roles[role] is not None:
+            taken.add(roles[role])
+    inner = _store_names(loop.target) if isinstance(loop, ast.For) else set()
+    assigned = set()
+    for st in loop.body:
+        for n in ast.walk(st):
+            if isinstance(n, ast.Name) and isinstance(n.ctx, ast.Store):
+                assigned.add(n.id)
+    fresh = sorted(assigned - set(carried) - inner)
+    outs = carried + fresh
+    step, params = loop_as_function(fi, loop, outs)
+    kw = {}
+    given = given or {}
+    for pn in params:
+        if pn in given:
+            kw[pn] = given[pn]
+        elif pn in carried:
+            rl = next((r for r, nm in roles.items() if nm == pn), None)
+            kw[pn] = dom.sym(prefix + (rl if rl is not None else '?' + pn))
+        elif pn in inner:
+            kw[pn] = dom.sym(var_atom)
+        elif pn in fresh:
+            kw[pn] = Const(None)
+        elif pn in sn.env:
+            kw[pn] = sn.env[pn]
+        else:
+            kw[pn] = dom.sym(pn)
+    saved = dom.__dict__.pop('loop', None)           # the snapshot hook must not swallow loops nested in the body
+    try:
+        rs = [q for q in it.run(step, kwargs=lambda: dict(kw)) if q.outcome == 'return']
+    finally:
+        if saved is not None:
+            dom.loop = saved
+    var = sorted(inner)[0] if inner else None
+    out = []
+    for q in rs:
+        sw = SweepStep(roles, carried, fresh, dict(zip(outs, q.value.items)), var, entry)
+        sw.conds = list(q.conds)
+        out.append(sw)
+    return out
+
+
+def post_atoms(rat, prefix='post_'):
+    """names X for which the symbol post_X (value of X after a skipped loop, see snapshot_loops) occurs in `rat`."""
+    out = set()
+    for a in rat.atoms():
+        if isinstance(a, str) and a.startswith(prefix):
+            out.add(a[len(prefix):])
+    return out
